@@ -111,8 +111,8 @@ def canon(tree):
         if node.anchor is not None:
             anchors[pos] = node.anchor
             by_id.setdefault(id(node), []).append(pos)
-    groups = sorted((frozenset(v) for v in by_id.values() if len(v) > 1),
-                    key=lambda s: sorted(map(repr, s)))
+    groups = sorted((tuple(sorted(v, key=repr)) for v in by_id.values()
+                     if len(v) > 1), key=repr)
     return (typed_of(tree), tuple(sorted(anchors.items(), key=repr)),
             tuple(groups))
 
